@@ -35,3 +35,30 @@ pub fn run(req: &J) -> J {
         Err(_) => json!({"tokens": null}),
     }
 }
+
+/// The top-level element stream the block parser iterates over: for each element its rule and its
+/// source text; for a tag also its name and the number of argument tokens after the name.
+pub fn elements(req: &J) -> J {
+    let text = req["text"].as_str().unwrap();
+    match G::parse(Rule::LaxLiquidFile, text) {
+        Ok(mut pairs) => {
+            let file = pairs.next().unwrap();
+            let els: Vec<J> = file
+                .into_inner()
+                .map(|p| {
+                    let rule = format!("{:?}", p.as_rule());
+                    let src = p.as_str().to_string();
+                    if p.as_rule() == Rule::Tag {
+                        let mut inner = p.into_inner().next().unwrap().into_inner();
+                        let name = inner.next().unwrap().as_str().to_string();
+                        json!({"rule": rule, "text": src, "name": name, "nargs": inner.count()})
+                    } else {
+                        json!({"rule": rule, "text": src})
+                    }
+                })
+                .collect();
+            json!({"elements": els})
+        }
+        Err(_) => json!({"elements": null}),
+    }
+}
